@@ -42,6 +42,11 @@ type Case struct {
 	ZipLen  int64  `json:"zip_len,omitempty"` // length of the bad region (0 = to the end)
 	ZipMode string `json:"zip_mode,omitempty"`
 	Data    []byte `json:"data"`
+	// Prelude: reads the same worker process performed immediately before this one. Only present on recorded
+	// violations; replay performs them first, so that a violation which depends on process-level state left
+	// behind by earlier loads (a package-level cache, say) reproduces in a fresh process. Minimisation drops
+	// whatever part of it is not needed.
+	Prelude []Case `json:"prelude,omitempty"`
 }
 
 // Outcome of a guarded call.
@@ -682,6 +687,14 @@ func Exec(prop string, raw json.RawMessage, scratch string) (*evid.Violation, er
 	}
 	env := &Env{Scratch: scratch}
 	var vs []verdict
+	for i := range c.Prelude {
+		switch prop {
+		case "C18":
+			Check18(&c.Prelude[i], env)
+		case "C12":
+			Check12(&c.Prelude[i], env)
+		}
+	}
 	switch prop {
 	case "C18":
 		vs = Check18(&c, env)
